@@ -47,6 +47,9 @@ def run(check: Check):
       n_div += 1
       check.ob('R-DIV', fi, txt(c)[:90], True, 'G1 util.safe_div', node=c)
   check.floor('R-DIV', 'division sites in compression.py', n_div, 8)
+  # the rotated quantizers rely on rotation and inverse rotation undoing each other (rules of C18)
+  from fjsa.props import c18
+  c18.run(check)
   # the mean every compression aggregator ends in: tree_mean's accumulation and its zero-guarded normaliser (shared with C07)
   from fjsa.props import c07
   c07._tree_mean(check, repo.func('fedjax.core.tree_util', 'tree_mean'))
